@@ -790,7 +790,9 @@ func (g *gen) guardedUnit(cur interface{}, depth int) toks {
 	case 3:
 		return append(append(toks{"length("}, append(obj, ".", "*")...), ")")
 	case 4:
-		return append(append(obj, ".", "*", "|", "length(", "@", ")"))
+		// in parentheses: embedded as an operand ("X.* | length(@) < [0]") the pipe would otherwise
+		// take the whole right context as its second stage and expose the list's order
+		return paren(append(append(obj, ".", "*", "|", "length(", "@", ")")))
 	case 5:
 		return append(append(toks{"contains(", "keys("}, obj...), ")", ",", rawTok(g.r.pick(simpleKeys)), ")")
 	default:
